@@ -1,4 +1,4 @@
 #!/bin/bash
 # remove scratch output of checks (replay files of mutant runs, worker files)
-rm -f /verif/replays/*.json
+rm -f /verif/replays/*.json /verif/replays/*_test.go.txt
 rm -rf /verif/work/*
